@@ -58,12 +58,12 @@ Lemma cells_ok_view2 s s' :
   s'.(ready).(o_sent) = s.(ready).(o_sent) -> (s.(ready).(o_rxdrop) = true -> s'.(ready).(o_rxdrop) = true) ->
   s'.(ready).(o_txdrop) = s.(ready).(o_txdrop) -> task_waker_only s'.(ready).(o_waker) ->
   s'.(fin) = s.(fin) -> s'.(sf).(sf_res) = s.(sf).(sf_res) -> task_waker_only s'.(sf).(sf_waker) ->
-  s'.(evs) = s.(evs) -> s'.(txheld) = s.(txheld) ->
+  s'.(evs) = s.(evs) -> s'.(txheld) = s.(txheld) -> s'.(owk) = s.(owk) ->
   cells_ok s -> cells_ok s'.
 Proof.
-  intros E1 E2 E3 E4 E5 E6 E7 E8 E9 E10 E11 E12 [H1 H2 H3 H4 H5 H6 H7].
-  split; unfold phase, fin_done in *; rewrite ?E1, ?E2, ?E3, ?E6, ?E8, ?E11, ?E12; try done.
-  eapply cells_at_view; [..|exact H1]; unfold fin_done; by rewrite ?E3, ?E4, ?E8, ?E9.
+  intros E1 E2 E3 E4 E5 E6 E7 E8 E9 E10 E11 E12 E13 [H1 H2 H3 H4 H5 H6 H7 H8].
+  split; unfold phase, fin_done in *; rewrite ?E1, ?E2, ?E3, ?E6, ?E8, ?E11, ?E12, ?E13; try done.
+  eapply cells_at_view; [..|exact H1]; unfold fin_done; by rewrite ?E2, ?E3, ?E4, ?E8, ?E9.
 Qed.
 
 Lemma notin_snoc {A} (x e : A) l : x ∉ l -> x <> e -> x ∉ l ++ [e].
@@ -151,7 +151,7 @@ Qed.
 (* the scheduler future is pending: its waker is set (same critical section) and SyncFuture::poll goes on *)
 Lemma pending_inv F nb na s :
   Inv F nb na s -> neutral s.(pc) = true -> sf_state s.(sst) = true ->
-  (s.(sst) = SWaitQueue -> s.(pool) = false -> 2 <= phase s) ->
+  (s.(sst) = SWaitQueue -> s.(pool) = false -> 2 <= phase s \/ s.(pollable) = true \/ (s.(parked) = true /\ is_other s.(cur) = true /\ s.(owk) = Some WBoth)) ->
   (forall v, s.(sst) = SWaitSched v -> s.(pool) = true /\ s.(sf).(sf_res) = SfNone) ->
   Inv F nb na (sf_return RPending (sf_set_waker s)).
 Proof.
@@ -160,7 +160,7 @@ Proof.
   - (* WaitingForQueue: go on to poll the receiver *)
     split; cbn.
     + eapply qshape_same; [..|exact Hq]; done.
-    + destruct Hc as [C1 C2 C3 C4 C5 C6 C7]. split; try done. by right.
+    + destruct Hc as [C1 C2 C3 C4 C5 C6 C7 C8]. split; try done. by right.
     + eapply sst_ok_view; [..|exact Hss]; try done. cbn. pciff.
     + unfold pc_ok; cbn. rewrite Est. split; [done|]. by apply H1.
     + eapply ulog_ok_view; [..|exact Hu]; try done; cbn.
@@ -173,7 +173,7 @@ Proof.
     destruct (H2 _ eq_refl) as [Hpool Hres].
     split; cbn.
     + eapply qshape_same; [..|exact Hq]; done.
-    + destruct Hc as [C1 C2 C3 C4 C5 C6 C7]. split; try done. by right.
+    + destruct Hc as [C1 C2 C3 C4 C5 C6 C7 C8]. split; try done. by right.
     + eapply sst_ok_view; [..|exact Hss]; try done. cbn. pciff.
     + unfold pc_ok; cbn. by rewrite Est.
     + eapply ulog_ok_view; [..|exact Hu]; try done; cbn.
@@ -347,7 +347,7 @@ Proof.
     { destruct He as [E|[_ E]]; [destruct (Hp' E); auto|auto]. }
     split.
     - eapply qshape_emit; [..|exact Hq]; done.
-    - destruct Hc as [C1 C2 C3 C4 C5 C6 C7]. split; try done.
+    - destruct Hc as [C1 C2 C3 C4 C5 C6 C7 C8]. split; try done.
     - unfold sst_ok; cbn. rewrite Est. split_and!; try done. by left.
     - unfold pc_ok; cbn. destruct Hp'' as [->|[->| ->]]; cbn; try done. by rewrite Est.
     - clear Hregs Hidle Hw Hl Hq Hc HI.
@@ -403,7 +403,7 @@ Proof.
   intros Hc Ht Hcw. pose proof (held_phase _ Hc Ht) as Hph.
   split.
   2: { intros s0. destruct w as [[]|]; cbn; by destruct s0. }
-  destruct Hc as [C1 C2 C3 C4 C5 C6 C7]. unfold phase, fin_done, os_send, os_droptx in *.
+  destruct Hc as [C1 C2 C3 C4 C5 C6 C7 C8]. unfold phase, fin_done, os_send, os_droptx in *.
   destruct_state s. cbn in *. subst txheld0 frx.
   destruct fsent, ftx; try done. cbn in *.
   assert (c = {| o_sent := o_sent c; o_txdrop := o_txdrop c; o_rxdrop := false; o_waker := None |} /\ w = fwk /\ o_sent c || o_txdrop c = true) as (Ec & -> & Ed).
@@ -616,7 +616,7 @@ Proof.
   rewrite foldr_wake_task by (intros w Hw'; by eapply (c_w_ev _ Hc)).
   split; try done.
   - eapply qshape_same; [..|exact Hq]; done.
-  - destruct Hc as [C1 C2 C3 C4 C5 C6 C7]. split; try done.
+  - destruct Hc as [C1 C2 C3 C4 C5 C6 C7 C8]. split; try done.
     cbn. intros x c' w Hx Hw'. destruct (decide (x = e)) as [->|Hne].
     + rewrite list_lookup_insert in Hx by (by eapply lookup_lt_Some). injection Hx as <-. cbn in Hw'. by apply elem_of_nil in Hw'.
     + rewrite list_lookup_insert_ne in Hx by done. by eapply C6.
